@@ -26,8 +26,7 @@ Print Assumptions c01_step_refines.
 
 (* Whole programs from the empty database: no panic, same replies, same final visible state.
    _partial: [prog_ok] excludes PDEL / KEYS patterns whose literal prefix ends in byte 0xFF
-   (open finding C12-ff of glob.Parse) and SCAN cursors >= 2^63 (open finding C01-scan-count-cursor);
-   nothing else is excluded. *)
+   (open finding C12-ff of glob.Parse); nothing else is excluded. *)
 Theorem c01_refines_partial : forall O p, prog_ok O p ->
   exists sf rs, run O true [] p = Some (sf, rs) /\ srun O [] p = (abs sf, rs) /\ inv sf.
 Proof. exact run_refines_init. Qed.
@@ -39,14 +38,9 @@ Theorem c01_refines_ff_refuted :
 Proof. exact refines_ff_refuted. Qed.
 Print Assumptions c01_refines_ff_refuted.
 
-(* ... nor can the cursor bound: SCAN key CURSOR 18446744073709551615 COUNT on one object answers 2 *)
-Theorem c01_scan_count_cursor_refuted :
-  exists s, run toy_oracle true [] f1_prog_prefix = Some (s, [ROk str_OK]) /\
-    let q := QScan w_k 18446744073709551615 0 [] false OUT_COUNT false in
-    run_req toy_oracle true (toy_env 6) s q = Some (s, RInt 2, false) /\
-    sexec toy_oracle matchesb (toy_env 6) (abs s) q = (abs s, RInt 0, false).
-Proof. exact scan_count_cursor_refuted. Qed.
-Print Assumptions c01_scan_count_cursor_refuted.
+(* (The former second side condition, SCAN cursors below 2^63 — finding C01-scan-count-cursor,
+   `SCAN k CURSOR 18446744073709551615 COUNT` answered Count()+1 — is gone: repaired in /repo by
+   3ef88bc + a8face1, the model is the repaired shortcut.) *)
 
 (* An error or a negative answer (nil, 0) changes nothing and logs nothing — every command, every
    argument list, no side condition on patterns. *)
